@@ -43,7 +43,7 @@ CLAIMED = {
         text="Static analysis of the symmetry analysis: (R1) on every CFG path through the classification loop each Fock state gets exactly one StateBlockIndex entry and one StatesContainer entry with the same block, new blocks "
              "are registered in both maps before the counter advances; (R2) (block, position) addresses round-trip; (R3) an integral of motion is stored only after it commuted with H and with every n_i (full loop, failing edge "
              "returns false); (R4) every throw reachable from Symmetrizer::compute / StatesClassification::compute is excluded at its call site (exception summaries, parameter substitution, entailment); (R5) the three "
-             "FieldOperator::prepare siblings build parts and block maps identically; (R6) blocks are keyed by QuantumNumbers whose identity is a hash: it is recomputed from the whole ordered vector after every change of the numbers, and <, ==, != compare the hashes of the two objects. Also: BlockNumber::isCorrect is number >= 0, and the guard of part creation is evaluated for the image-block values -1, 0, 1, 5 on every path (block 0 is an ordinary block); an element read numbers[pos] is not a recomputation of the hash from the whole vector.",
+             "FieldOperator::prepare siblings build parts and block maps identically; (R6) blocks are keyed by QuantumNumbers whose identity is a hash: it is recomputed from the whole ordered vector after every change of the numbers, and <, ==, != compare the hashes of the two objects. Also: BlockNumber::isCorrect is number >= 0, and the guard of part creation is evaluated for the image-block values -1, 0, 1, 5 on every path (block 0 is an ordinary block); an element read numbers[pos] is not a recomputation of the hash from the whole vector. (R7) Symmetrizer::compute / StatesClassification::compute return at once when Status >= the level they establish.",
         note="Necessary conditions only: that accepted integrals of motion make H block diagonal and operators single-target is a value-level fact and is not decided; two hazards (mapsTo first-state rule, hash-compared quantum numbers) are documented, not armed. Virtual calls summarised through the static callee.",
         technique="CFG path enumeration with pairing rule + exception summaries discharged by branch-fact entailment + sibling-structure comparison",
         ref="DESIGN.md §3 C07"),
@@ -51,7 +51,7 @@ CLAIMED = {
         text="Structural necessary conditions of the dispatch protocol, decided on all CFG paths: an order is send(Work, job) + DispatchMap[job]=worker + irecv(worker, Pending) in that worker's slot, one job and one worker popped per order "
              "under both stacks non-empty; the worker re-posts its receive after every completed one, cancels it iff Finish, reports completion with send(boss, Pending) and resets its state, and its members are initialised before the "
              "receive captures them; Finish is sent only when no job is queued and all workers are idle, once per worker; completed workers are re-queued; root/non-root arms disseminating the job map match; the dispatch loop is "
-             "collective-free; the std::sort comparator is strict; (R7) MPIMaster::is_finished, evaluated from its extracted body on every pattern of the per-worker `Finish sent` flags (pools of 1..3 workers, stacks empty and non-empty), is true exactly when Finish went to every worker. Also: MPIMaster::swap exchanges every member the delegating constructors do not initialise; fill_stack_ is evaluated on small pools (every task and worker once, WorkerIndices = position in the pool); every call of check_workers reaches the Finish decision (no early return before it).",
+             "collective-free; the std::sort comparator is strict; (R7) MPIMaster::is_finished, evaluated from its extracted body on every pattern of the per-worker `Finish sent` flags (pools of 1..3 workers, stacks empty and non-empty), is true exactly when Finish went to every worker. Also: MPIMaster::swap exchanges every member the delegating constructors do not initialise; fill_stack_ is evaluated on small pools (every task and worker once, WorkerIndices = position in the pool); every call of check_workers reaches the Finish decision (no early return before it). _autorange_tasks(n) is evaluated to be [0..n-1].",
         note="The property itself (exactly-once and termination for every interleaving and across rounds) quantifies over schedules and is NOT decided: that needs model checking of the protocol, a different technique family. Trusts Boost.MPI request semantics.",
         technique="pairing / dominance / typestate rules over clang AST+CFG with branch-fact dataflow; SPMD arm matching",
         ref="DESIGN.md §3 C16"),
@@ -80,7 +80,7 @@ CLAIMED = {
     "C09": dict(
         text="Static formula and structure check of the Gibbs state: weights(s) == exp(-beta*(E_s - GroundEnergy)) for every state; Z_part accumulates them; DensityMatrix::compute sums Z over ALL blocks in one full loop and normalises all blocks "
              "in a second loop after it; every block gets its own Hamiltonian block, beta and the GLOBAL ground energy, which is the minimum over all blocks (so the exp argument is <= 0: overflow safety); averages are "
-             "sum_s w_s sum_f g(Fock(block,f))|v_s(f)|^2 typed by index space (eigen-index vs Fock position of the part's own block); the ensemble average sums A(n,n) w(n) over diagonal blocks only with the block's own data.",
+             "sum_s w_s sum_f g(Fock(block,f))|v_s(f)|^2 typed by index space (eigen-index vs Fock position of the part's own block); the ensemble average sums A(n,n) w(n) over diagonal blocks only with the block's own data. User-written copy constructors of EnsembleAverage take every member (deep-copy loops over the whole container).",
         note="Value-level facts (weights sum to one to rounding, finiteness beyond the sign argument, traces on the full Fock space) are not decided; Eigen is trusted.",
         technique="sympy normal forms over index-space typed atoms + loop-shape / phase-ordering dominance rules",
         ref="DESIGN.md §3 C09"),
